@@ -47,6 +47,7 @@ struct verif_ghost
   _Bool mon_reject_ok;              /* the last diagnostic was issued with a spec-rejected token under the cursor */
   int mon_indent_run;               /* running indent after the last complete line */
   unsigned long g_lines_listed;     /* line-number events seen (one per listed line) */
+  unsigned long g_file_failures;    /* input files that could not be opened, decoded or closed (main-level bookkeeping) */
 };
 
 struct verif_ghost_file
@@ -95,6 +96,7 @@ static struct verif_ghost_file GF;
 #define mon_reject_ok G.mon_reject_ok
 #define mon_indent_run G.mon_indent_run
 #define g_lines_listed G.g_lines_listed
+#define g_file_failures G.g_file_failures
 #define g_pos         GF.g_pos
 #define g_eof_seen    GF.g_eof_seen
 #define g_rd_err      GF.g_rd_err
